@@ -9,7 +9,11 @@ BOX_V = [[x, y, z] for x in (0.5, 2.0) for y in (-0.5, 0.5) for z in (0.25, 1.0)
 BOX_F = [[0, 1, 3], [0, 3, 2], [4, 6, 7], [4, 7, 5], [0, 4, 5], [0, 5, 1], [2, 3, 7], [2, 7, 6], [0, 2, 6], [0, 6, 4], [1, 5, 7], [1, 7, 3]]
 # a tall column: the three bounding-box extents differ, and the y-range is a sub-range of the z-range
 TALL_V = [[x, y, z] for x in (0.0, 1.0) for y in (0.0, 0.8) for z in (0.0, 3.0)]
-SHAPES = {"tetra": (TETRA_V, TETRA_F), "box": (BOX_V, BOX_F), "tall": (TALL_V, BOX_F)}
+# the tetrahedron 40 times larger, built with the constructor argument tol=1e-3 (float32 coordinates of its surface points are
+# off by several 1e-6, more than the default tolerance)
+BIG_V = [[40.0 * c for c in v_] for v_ in TETRA_V]
+SHAPES = {"tetra": (TETRA_V, TETRA_F), "box": (BOX_V, BOX_F), "tall": (TALL_V, BOX_F), "tetra_big": (BIG_V, TETRA_F)}
+MESH_TOL = {"tetra_big": 1.0e-3}
 
 
 def _tri(v, f):
@@ -115,14 +119,15 @@ def build(shape, winding, source, tmpdir=None, space=None):
     space = space if space is not None else Space({"x": 3})
     if winding == "in":
         f = flipped(f)
+    kw = {"tol": MESH_TOL[shape]} if shape in MESH_TOL else {}
     if source == "arrays":
-        return TrimeshPolyhedron(space, vertices=v, faces=f)
+        return TrimeshPolyhedron(space, vertices=v, faces=f, **kw)
     if tmpdir is None:
         import tempfile
         tmpdir = tempfile.mkdtemp(prefix="tpmc_mesh_")
     path = os.path.join(tmpdir, "%s_%s.stl" % (shape, winding))
     write_stl(path, v, f)
-    dom = TrimeshPolyhedron(space, file_name=path, file_type="stl")
+    dom = TrimeshPolyhedron(space, file_name=path, file_type="stl", **kw)
     if tmpdir.startswith(os.path.join(__import__("tempfile").gettempdir(), "tpmc_mesh_")):
         __import__("shutil").rmtree(tmpdir, ignore_errors=True)
     return dom
